@@ -78,7 +78,23 @@ CHECKS['C15'] = dict(
         'refutation witnesses for the pinned walk; scanner model vs the real regex substitutions and captured logs / facets / meta.src of real filters.',
    note=NOTE_COMMON + 'Known findings: empty user, comma lists without blanks, over-masking, scheme-stripped hosts of MQTTOut/Webvis/REST.',
    technique='Coq proof (explicit regex scanner, tree induction) + differential correspondence', ref='§6 C15')
-NOT_YET = {}
+CHECKS['C03'] = dict(
+   text='Theorems: the process() result contract (None sends nothing, lone Frame = main, {} delivered as a complete empty set, id carried from input to output, a deferred result is evaluated only by the '
+        'send_maybe that publishes, at most once); MQGlue model compared with the real MQ.send/recv/process_frames; chain/tee/tee-rejoin/join pipelines of REAL filters run in deterministic pipeline mode '
+        'and compared with the functional reference.',
+   note=PROTO_NOTE + ' The lossless-edge and chain-composition theorems over the network model are not proved (partial): explored in pipeline mode.',
+   technique='Coq proof (contract lemmas over the glue and sender machines) + differential correspondence + pipeline-mode exploration against a functional reference', ref='§5, §6 C03')
+CHECKS['C04'] = dict(
+   text='Theorems: a publish un-requests every client it is sent to, the gate opens only when every tracked synchronized client has asked, clients leave the wait set only by CLOSE/timeout, a receiver '
+        'issues requests only from recv(); machines compared with the real classes; stalled-consumer pipelines of real filters measured in pipeline mode (bounded, flat in run length).',
+   note=PROTO_NOTE + ' The schedule-independent credit bound over the network fragment is not proved (partial).',
+   technique='Coq proof (local flow-control lemmas) + differential correspondence + pipeline-mode exploration', ref='§5, §6 C04')
+CHECKS['C06'] = dict(
+   text='Theorems: eviction on CLOSE and after CONN_TIMEOUT, adoption of the id consumers ask for, acceptance of newer ids, required outputs are waited for; machines compared with the real classes; '
+        'kill/restart of every filter of a real pipeline at random scheduling steps with restart delays around the connection timeout explored in pipeline mode (flow resumes, ordering kept).',
+   note=PROTO_NOTE + ' Handshake convergence / edge progress / deadlock freedom over the network model are not proved (partial).',
+   technique='Coq proof (local healing lemmas) + differential correspondence + pipeline-mode fault exploration', ref='§5, §6 C06')
+NOT_YET = {'C13': 'model, theorems and correspondence are being built (Log/RollLog.v); not claimed until its check runs', 'C14': 'model, theorems and correspondence are being built (Log/Head.v); not claimed until its check runs'}
 def main():
     props = [json.loads(l) for l in open(os.path.join(VERIF, 'properties.jsonl'))]
     checks, na = [], []
